@@ -46,27 +46,73 @@ impl Op {
 			_ => Op::Coord,
 		}
 	}
-	/// the callback (same arithmetic as `fOf` in the model)
+	/// the callback family (same arithmetic as `fOf` in the model): per item `None` / `Some(empty)` /
+	/// `Some(1 byte)` / `Some(transformed)` / `Some(large)`, as result codes
 	fn f(self, a: u64) -> Option<u64> {
+		let result = |kind: u64| match kind {
+			0 => 0,
+			1 => 1 + a % 256,
+			2 => 1000 + (2 * a + 11),
+			_ => 1_000_000_000_000 + a,
+		};
 		match self {
-			Op::Map => Some(2 * a + 1),
-			Op::Fmap => if a % 3 == 0 { None } else { Some(a + 100) },
-			Op::Coord => if a % 4 == 0 { None } else { Some(a + 7) },
+			Op::Map => Some(result(a % 4)),
+			_ => if a % 5 == 0 { None } else { Some(result(a % 5 - 1)) },
 		}
 	}
 }
 
+/// coordinate id ↔ `TileCoord3` (fields are public: out-of-range x/y can be built directly):
+/// x = bits 0..20, y = bits 20..40, z = 20 if bits 40.. are 0, else (bits 40..) - 1
 fn coord_of(id: u64) -> TileCoord3 {
-	TileCoord3::new((id & 0xFFFFF) as u32, (id >> 20) as u32, 20).unwrap()
+	let zc = id >> 40;
+	TileCoord3 { x: (id & 0xFFFFF) as u32, y: ((id >> 20) & 0xFFFFF) as u32, z: if zc == 0 { 20 } else { (zc - 1) as u8 } }
 }
 fn id_of(c: &TileCoord3) -> u64 {
-	((c.y as u64) << 20) | c.x as u64
+	let zc = if c.z == 20 { 0 } else { c.z as u64 + 1 };
+	(zc << 40) | ((c.y as u64) << 20) | c.x as u64
 }
-fn blob_of(v: u64) -> Blob {
-	Blob::from(v.to_string())
+/// argument id → input blob: 0 = empty blob, otherwise decimal text (padded to 3000 bytes if 11 | a)
+fn blob_of(a: u64) -> Blob {
+	if a == 0 {
+		Blob::from(Vec::<u8>::new())
+	} else if a % 11 == 0 {
+		Blob::from(format!("{a:<3000}"))
+	} else {
+		Blob::from(a.to_string())
+	}
 }
 fn val_of(b: &Blob) -> u64 {
-	b.as_str().parse().unwrap()
+	let s = b.as_str().trim_end();
+	if s.is_empty() { 0 } else { s.parse().unwrap() }
+}
+/// result code → blob (`big` = size of the large class)
+fn res_blob(r: u64, big: usize) -> Blob {
+	if r == 0 {
+		Blob::from(Vec::<u8>::new())
+	} else if r <= 256 {
+		Blob::from(vec![(r - 1) as u8])
+	} else if r < 1_000_000_000_000 {
+		Blob::from((r - 1000).to_string())
+	} else {
+		let a = r - 1_000_000_000_000;
+		let mut v = format!("{a:016}").into_bytes();
+		v.extend((16..big).map(|i| ((i as u64 * 31 + a) % 251) as u8));
+		Blob::from(v)
+	}
+}
+/// blob → result code (`u64::MAX` = not a blob of the family, e.g. a corrupted large one)
+fn res_val(b: &Blob) -> u64 {
+	let v = b.as_slice();
+	match v.len() {
+		0 => 0,
+		1 => 1 + v[0] as u64,
+		2..=40 => std::str::from_utf8(v).ok().and_then(|s| s.parse::<u64>().ok()).map_or(u64::MAX, |x| 1000 + x),
+		_ => {
+			let Some(a) = std::str::from_utf8(&v[..16]).ok().and_then(|s| s.parse::<u64>().ok()) else { return u64::MAX };
+			if (16..v.len()).all(|i| v[i] == ((i as u64 * 31 + a) % 251) as u8) { 1_000_000_000_000 + a } else { u64::MAX }
+		}
+	}
 }
 
 /// how the controller picks the next item to complete among the in-flight ones (sorted by index)
@@ -193,6 +239,7 @@ fn execute(rt: &tokio::runtime::Runtime, op: Op, window: usize, k: Option<usize>
 		})
 	};
 
+	let big: usize = if len <= 100 { 70_000 } else { 200 };
 	let consumer: Vec<Vec<(u64, u64)>> = rt.block_on(async {
 		let g1 = gate.clone();
 		let cb_idx = idx_of.clone();
@@ -200,17 +247,17 @@ fn execute(rt: &tokio::runtime::Runtime, op: Op, window: usize, k: Option<usize>
 			Op::Map => TileStream::from_vec(items.iter().map(|(c, a)| (coord_of(*c), blob_of(*a))).collect()).map_blob_parallel(move |b| {
 				let a = val_of(&b);
 				g1.enter(cb_idx[&a]);
-				blob_of(Op::Map.f(a).unwrap())
+				res_blob(Op::Map.f(a).unwrap(), big)
 			}),
 			Op::Fmap => TileStream::from_vec(items.iter().map(|(c, a)| (coord_of(*c), blob_of(*a))).collect()).filter_map_blob_parallel(move |b| {
 				let a = val_of(&b);
 				g1.enter(cb_idx[&a]);
-				Op::Fmap.f(a).map(blob_of)
+				Op::Fmap.f(a).map(|r| res_blob(r, big))
 			}),
 			Op::Coord => TileStream::from_coord_iter_parallel(items.iter().map(|(c, _)| coord_of(*c)).collect::<Vec<_>>().into_iter(), move |c| {
 				let a = id_of(&c);
 				g1.enter(cb_idx[&a]);
-				Op::Coord.f(a).map(blob_of)
+				Op::Coord.f(a).map(|r| res_blob(r, big))
 			}),
 		};
 		// tap behind the operator: the sequence in which results leave it
@@ -220,12 +267,12 @@ fn execute(rt: &tokio::runtime::Runtime, op: Op, window: usize, k: Option<usize>
 				.stream
 				.inspect(move |(c, b)| {
 					let mut g = g2.m.lock().unwrap();
-					g.tap.push((id_of(c), val_of(b)));
+					g.tap.push((id_of(c), res_val(b)));
 					g2.cv.notify_all();
 				})
 				.boxed(),
 		);
-		let conv = |v: Vec<(TileCoord3, Blob)>| v.iter().map(|(c, b)| (id_of(c), val_of(b))).collect::<Vec<_>>();
+		let conv = |v: Vec<(TileCoord3, Blob)>| v.iter().map(|(c, b)| (id_of(c), res_val(b))).collect::<Vec<_>>();
 		match k {
 			None => vec![conv(tapped.collect().await)],
 			Some(k) => {
@@ -374,21 +421,39 @@ fn run_case(cx: &mut Ctx, op: Op, want_window: usize, k: Option<usize>, items: &
 	cx.out.oracle(true, "", json!(null), json!(null));
 }
 
+/// z = 2 coordinates outside the 4×4 grid whose sort index collides with an in-range one:
+/// (5,0) and (1,1) both give offset + 5; (9,1) and (1,3) both give offset + 13
+const COLLIDING: [u64; 4] = [(3 << 40) | 5, (3 << 40) | (1 << 20) | 1, (3 << 40) | (1 << 20) | 9, (3 << 40) | (3 << 20) | 1];
+
 fn gen_items(rng: &mut Rng, op: Op, len: usize) -> Vec<(u64, u64)> {
-	// unique args (the callback is gated by its argument); coordinates repeat for map/fmap
-	let base = rng.below(50);
+	// unique args (the callback is gated by its argument; arg 0 = the empty input blob)
+	let base = if rng.chance(1, 2) { 0 } else { rng.below(50) };
 	let mut args: Vec<u64> = (0..len as u64).map(|i| base + i).collect();
-	// shuffle so that kept/dropped items are spread irregularly
+	if op == Op::Coord {
+		// the argument is the coordinate itself: mix in the out-of-range / colliding ones
+		for (i, c) in COLLIDING.iter().enumerate() {
+			if i < args.len() && rng.chance(1, 2) { args[i] = *c; }
+		}
+	}
+	// shuffle so that dropped / empty / large results are spread irregularly
 	for i in (1..args.len()).rev() {
 		let j = rng.below(i as u64 + 1) as usize;
 		args.swap(i, j);
 	}
-	args.iter()
+	let mut items: Vec<(u64, u64)> = args
+		.iter()
 		.map(|a| match op {
 			Op::Coord => (*a, *a),
-			_ => (if rng.chance(1, 4) { rng.below(len as u64 / 2 + 1) } else { 1000 + *a }, *a),
+			_ => (match rng.below(8) { 0 | 1 => rng.below(len as u64 / 2 + 1), 2 => *rng.pick(&COLLIDING), _ => 1000 + *a }, *a),
 		})
-		.collect()
+		.collect();
+	// the input stream contains the same coordinate twice
+	if op != Op::Coord && len >= 2 && rng.chance(2, 3) {
+		let i = rng.below(len as u64) as usize;
+		let j = (i + 1 + rng.below(len as u64 - 1) as usize) % len;
+		items[j].0 = items[i].0;
+	}
+	items
 }
 
 /// all digit vectors d with d[i] < min(window, len - i): every valid completion order
